@@ -228,10 +228,21 @@ def word_str(w):
     return "@".join(n + ("*" if s else "") for n, s in w) or "I"
 
 
+def zero_atoms():
+    try:
+        return cur().ghost.get("zero_atoms", set())
+    except RuntimeError:
+        return set()
+
+
 def nc_diff_words(a: NC, b: NC):
-    """Words whose coefficients are not syntactically identical, with the (a, b) coefficients."""
+    """Words whose coefficients are not syntactically identical, with the (a, b) coefficients.
+    Words containing an atom known to be zero on the current path (e.g. csr.nnz == 0) are dropped."""
     out = []
+    za = zero_atoms()
     for w in sorted(a.words() | b.words(), key=str):
+        if za and any(n in za for n, _ in w):
+            continue
         ca, cb = a.t.get(w, Fraction(0)), b.t.get(w, Fraction(0))
         if isinstance(ca, Fraction) and isinstance(cb, Fraction):
             if ca != cb:
